@@ -292,6 +292,12 @@ class Ownership:
                               ast.JoinedStr, ast.Tuple)):
                 out.append(('fresh', sym.show(callterm)))
                 continue
+            if isinstance(v, ast.Call):
+                # a constructor call (also through a local that holds the class) or a copying built-in: a new object
+                tg = FuncEnv.of(self.p, unit).resolve_call(v)
+                if tg and all(t_[0] == 'class' or (t_[0] == 'ext' and t_[1] in FRESH_CALLS) for t_ in tg):
+                    out.append(('fresh', sym.show(callterm)))
+                    continue
             # evaluate the return expression in a pseudo activation bound to the call's argument terms is
             # not possible from terms alone; fall back to the declared receiver: methods returning parts
             # of self are classified by the receiver
